@@ -180,42 +180,81 @@ theorem foldl_run_perTree_total (ts : List Tree) : ∀ s : GapStats,
 /-- the line as the export reader looks at it (`line.strip()`) -/
 def stripLine (line : Str) : Str := ((line.dropWhile pyIsSpace).reverse.dropWhile pyIsSpace).reverse
 
-/-- reader state after a block of lines: current open sentence, tree counter, reversed output -/
+/-- reader state between lines: current open sentence, tree counter, reversed output -/
 abbrev ExpState := Option (Nat × List Str) × Nat × List (Nat × Tree)
+
+/-- the line opens a sentence -/
+def isBOS (l : Str) : Bool := "#BOS".toList.isPrefixOf l
+/-- the line closes a sentence -/
+def isEOS (l : Str) : Bool := "#EOS".toList.isPrefixOf l
+
+/-- one line of `exportLoop` -/
+def expStep (o : InOpts) (line : Str) (cur : Option (Nat × List Str)) (tc : Nat) (acc : List (Nat × Tree)) :
+    Except Err ExpState :=
+  match cur with
+  | none =>
+    if isBOS (stripLine line) then
+      match (splitWs (stripLine line))[1]?.bind strToNat? with
+      | some id => .ok (some (id, []), tc, acc)
+      | none => .error .valueError
+    else .ok (none, tc, acc)
+  | some (id, body) =>
+    if isEOS (stripLine line) then
+      match exportSentence o body.reverse with
+      | .error e => .error e
+      | .ok t =>
+        .ok (none, tc + 1, (if o.continuous then tc else id, if o.replaceParens then replaceParensTree t else t) :: acc)
+    else .ok (some (id, stripLine line :: body), tc, acc)
+
+theorem exportLoop_cons (o : InOpts) (line : Str) (rest : List Str) (cur : Option (Nat × List Str)) (tc : Nat)
+    (acc : List (Nat × Tree)) :
+    exportLoop o (line :: rest) cur tc acc =
+      match expStep o line cur tc acc with
+      | .error e => .error e
+      | .ok s => exportLoop o rest s.1 s.2.1 s.2.2 := by
+  cases cur with
+  | none =>
+    simp only [exportLoop, expStep, stripLine, isBOS]
+    split
+    · rename_i hp
+      split
+      · rename_i hq; simp only [hq, hp, ↓reduceIte]
+      · rename_i hq; simp only [hq, hp, ↓reduceIte]
+    · rename_i hp; simp only [hp]; rfl
+  | some p =>
+    obtain ⟨id, body⟩ := p
+    simp only [exportLoop, expStep, stripLine, isEOS]
+    split
+    · rename_i hp
+      split
+      · rename_i hq; simp only [hq, hp, ↓reduceIte]
+      · rename_i hq; simp only [hq, hp, ↓reduceIte]
+    · rename_i hp; simp only [hp]; rfl
 
 /-- `exportLoop` without the final `reverse`: the state after reading the lines -/
 def exportScan (o : InOpts) : List Str → Option (Nat × List Str) → Nat → List (Nat × Tree) → Except Err ExpState
   | [], cur, tc, acc => .ok (cur, tc, acc)
-  | line :: rest, cur, treeCnt, acc =>
-    let line := stripLine line
-    match cur with
-    | none =>
-      if "#BOS".toList.isPrefixOf line then
-        match (splitWs line)[1]?.bind strToNat? with
-        | some id => exportScan o rest (some (id, [])) treeCnt acc
-        | none => .error .valueError
-      else exportScan o rest none treeCnt acc
-    | some (id, body) =>
-      if "#EOS".toList.isPrefixOf line then
-        match exportSentence o body.reverse with
-        | .error e => .error e
-        | .ok t =>
-          let t := if o.replaceParens then replaceParensTree t else t
-          exportScan o rest none (treeCnt + 1) ((if o.continuous then treeCnt else id, t) :: acc)
-      else exportScan o rest (some (id, line :: body)) treeCnt acc
+  | line :: rest, cur, tc, acc =>
+    match expStep o line cur tc acc with
+    | .error e => .error e
+    | .ok s => exportScan o rest s.1 s.2.1 s.2.2
+
+/-- is a sentence open after the line (`b` = a sentence was open before) -/
+def openStep (b : Bool) (l : Str) : Bool :=
+  if b then !isEOS (stripLine l) else isBOS (stripLine l)
+
+/-- does the line close a sentence -/
+def closes (b : Bool) (l : Str) : Bool := b && isEOS (stripLine l)
 
 /-- is a sentence open after the lines (start: `b` = inside a sentence) -/
 def openAfter : Bool → List Str → Bool
   | b, [] => b
-  | false, l :: r => openAfter ("#BOS".toList.isPrefixOf (stripLine l)) r
-  | true, l :: r => openAfter (!"#EOS".toList.isPrefixOf (stripLine l)) r
+  | b, l :: r => openAfter (openStep b l) r
 
 /-- number of sentences closed by the lines -/
 def closedCount : Bool → List Str → Nat
   | _, [] => 0
-  | false, l :: r => closedCount ("#BOS".toList.isPrefixOf (stripLine l)) r
-  | true, l :: r =>
-    if "#EOS".toList.isPrefixOf (stripLine l) then closedCount false r + 1 else closedCount true r
+  | b, l :: r => (if closes b l then 1 else 0) + closedCount (openStep b l) r
 
 /-- the general decomposition: reading `a ++ b` is reading `a`, then `b` from the state reached -/
 theorem exportLoop_append_scan (o : InOpts) (b : List Str) : ∀ (a : List Str) (cur : Option (Nat × List Str))
@@ -223,22 +262,13 @@ theorem exportLoop_append_scan (o : InOpts) (b : List Str) : ∀ (a : List Str) 
     exportLoop o (a ++ b) cur tc acc =
       match exportScan o a cur tc acc with
       | .error e => .error e
-      | .ok (cur', tc', acc') => exportLoop o b cur' tc' acc'
+      | .ok s => exportLoop o b s.1 s.2.1 s.2.2
   | [], cur, tc, acc => by simp [exportScan]
-  | line :: rest, none, tc, acc => by
-    simp only [List.cons_append, exportLoop, exportScan, stripLine]
-    split
-    · split
-      · exact exportLoop_append_scan o b rest _ _ _
-      · rfl
-    · exact exportLoop_append_scan o b rest _ _ _
-  | line :: rest, some (id, body), tc, acc => by
-    simp only [List.cons_append, exportLoop, exportScan, stripLine]
-    split
-    · split
-      · rfl
-      · exact exportLoop_append_scan o b rest _ _ _
-    · exact exportLoop_append_scan o b rest _ _ _
+  | line :: rest, cur, tc, acc => by
+    rw [List.cons_append, exportLoop_cons, exportScan]
+    cases expStep o line cur tc acc with
+    | error e => rfl
+    | ok s => exact exportLoop_append_scan o b rest _ _ _
 
 theorem exportLoop_eq_scan (o : InOpts) (a : List Str) (cur : Option (Nat × List Str)) (tc : Nat)
     (acc : List (Nat × Tree)) :
@@ -248,7 +278,33 @@ theorem exportLoop_eq_scan (o : InOpts) (a : List Str) (cur : Option (Nat × Lis
   rw [h]
   cases exportScan o a cur tc acc with
   | error e => rfl
-  | ok s => obtain ⟨c, t, r⟩ := s; simp [exportLoop, Except.map]
+  | ok s => simp [exportLoop, Except.map]
+
+theorem expStep_state (o : InOpts) (line : Str) (cur : Option (Nat × List Str)) (tc : Nat)
+    (acc : List (Nat × Tree)) (s : ExpState) (h : expStep o line cur tc acc = .ok s) :
+    s.1.isSome = openStep cur.isSome line ∧ s.2.1 = tc + (if closes cur.isSome line then 1 else 0) ∧
+    ∃ new, s.2.2 = new ++ acc ∧ new.length = (if closes cur.isSome line then 1 else 0) := by
+  cases cur with
+  | none =>
+    simp only [expStep] at h
+    split at h
+    · rename_i hp
+      split at h
+      · cases h; simp [openStep, closes, hp]
+      · cases h
+    · rename_i hp
+      cases h; simp [openStep, closes, hp]
+  | some p =>
+    obtain ⟨id, body⟩ := p
+    simp only [expStep] at h
+    split at h
+    · rename_i hp
+      split at h
+      · cases h
+      · cases h
+        refine ⟨by simp [openStep, hp], by simp [closes, hp], [_], rfl, by simp [closes, hp]⟩
+    · rename_i hp
+      cases h; simp [openStep, closes, hp]
 
 /-- what the state after a successful scan looks like -/
 theorem exportScan_state (o : InOpts) : ∀ (a : List Str) (cur : Option (Nat × List Str))
@@ -259,84 +315,84 @@ theorem exportScan_state (o : InOpts) : ∀ (a : List Str) (cur : Option (Nat ×
     simp only [exportScan, Except.ok.injEq] at h
     subst h
     exact ⟨by simp [openAfter], by simp [closedCount], [], by simp, by simp [closedCount]⟩
-  | line :: rest, none, tc, acc, s, h => by
+  | line :: rest, cur, tc, acc, s, h => by
     simp only [exportScan] at h
-    simp only [Option.isSome_none, openAfter, closedCount]
-    split at h
-    · rename_i hp
-      split at h
-      · have := exportScan_state o rest _ _ _ s h
-        simpa [hp] using this
-      · cases h
-    · rename_i hp
-      have := exportScan_state o rest _ _ _ s h
-      simpa [hp] using this
-  | line :: rest, some (id, body), tc, acc, s, h => by
-    simp only [exportScan] at h
-    simp only [Option.isSome_some, openAfter, closedCount]
-    split at h
-    · rename_i hp
-      split at h
-      · cases h
-      · obtain ⟨h1, h2, new, h3, h4⟩ := exportScan_state o rest _ _ _ s h
-        simp only [Option.isSome_none] at h1 h2 h4
-        refine ⟨by simpa [hp] using h1, by simp only [hp, if_true]; omega, new ++ [_], ?_, ?_⟩
-        · rw [h3]; simp
-        · simp [hp, h4]
-    · rename_i hp
-      have := exportScan_state o rest _ _ _ s h
-      simpa [hp] using this
+    cases hs : expStep o line cur tc acc with
+    | error e => rw [hs] at h; cases h
+    | ok s1 =>
+      rw [hs] at h
+      obtain ⟨a1, a2, n1, a3, a4⟩ := expStep_state o line cur tc acc s1 hs
+      obtain ⟨b1, b2, n2, b3, b4⟩ := exportScan_state o rest _ _ _ s h
+      simp only [openAfter, closedCount]
+      rw [a1] at b1 b2 b4
+      refine ⟨b1, by omega, n2 ++ n1, by rw [b3, a3, List.append_assoc], ?_⟩
+      rw [List.length_append]; omega
+
+theorem expStep_acc (o : InOpts) (line : Str) (cur : Option (Nat × List Str)) (tc : Nat)
+    (a1 a2 : List (Nat × Tree)) :
+    expStep o line cur tc (a1 ++ a2) = (expStep o line cur tc a1).map fun s => (s.1, s.2.1, s.2.2 ++ a2) := by
+  cases cur with
+  | none =>
+    simp only [expStep]
+    split
+    · split <;> rfl
+    · rfl
+  | some p =>
+    obtain ⟨id, body⟩ := p
+    simp only [expStep]
+    split
+    · split <;> rfl
+    · rfl
 
 /-- the accumulator is only prepended to -/
-theorem exportLoop_acc (o : InOpts) : ∀ (a : List Str) (cur : Option (Nat × List Str))
-    (tc : Nat) (acc : List (Nat × Tree)),
-    exportLoop o a cur tc acc = (exportLoop o a cur tc []).map (acc.reverse ++ ·)
-  | [], cur, tc, acc => by simp [exportLoop, Except.map]
-  | line :: rest, none, tc, acc => by
-    simp only [exportLoop]
-    split
-    · split
-      · exact exportLoop_acc o rest _ _ _
-      · rfl
-    · exact exportLoop_acc o rest _ _ _
-  | line :: rest, some (id, body), tc, acc => by
-    simp only [exportLoop]
-    split
-    · split
-      · rfl
-      · rw [exportLoop_acc o rest none (tc + 1) (_ :: acc), exportLoop_acc o rest none (tc + 1) [_]]
-        cases exportLoop o rest none (tc + 1) [] <;> simp [Except.map]
-    · exact exportLoop_acc o rest _ _ _
+theorem exportLoop_acc' (o : InOpts) : ∀ (a : List Str) (cur : Option (Nat × List Str))
+    (tc : Nat) (a1 a2 : List (Nat × Tree)),
+    exportLoop o a cur tc (a1 ++ a2) = (exportLoop o a cur tc a1).map (a2.reverse ++ ·)
+  | [], cur, tc, a1, a2 => by simp [exportLoop, Except.map]
+  | line :: rest, cur, tc, a1, a2 => by
+    rw [exportLoop_cons, exportLoop_cons, expStep_acc]
+    cases expStep o line cur tc a1 with
+    | error e => rfl
+    | ok s => exact exportLoop_acc' o rest _ _ _ _
+
+theorem exportLoop_acc (o : InOpts) (a : List Str) (cur : Option (Nat × List Str)) (tc : Nat)
+    (acc : List (Nat × Tree)) :
+    exportLoop o a cur tc acc = (exportLoop o a cur tc []).map (acc.reverse ++ ·) := by
+  have := exportLoop_acc' o a cur tc [] acc
+  simpa using this
 
 /-- renumbering of the sentence ids when the tree counter starts `k` later -/
 def renum (o : InOpts) (k : Nat) (p : Nat × Tree) : Nat × Tree := (if o.continuous then p.1 + k else p.1, p.2)
+
+theorem expStep_shift (o : InOpts) (k : Nat) (line : Str) (cur : Option (Nat × List Str)) (tc : Nat)
+    (acc : List (Nat × Tree)) :
+    expStep o line cur (tc + k) (acc.map (renum o k)) =
+      (expStep o line cur tc acc).map fun s => (s.1, s.2.1 + k, s.2.2.map (renum o k)) := by
+  cases cur with
+  | none =>
+    simp only [expStep]
+    split
+    · split <;> rfl
+    · rfl
+  | some p =>
+    obtain ⟨id, body⟩ := p
+    simp only [expStep]
+    split
+    · split
+      · rfl
+      · simp only [Except.map, List.map_cons, renum]
+        cases o.continuous <;> simp <;> omega
+    · rfl
 
 theorem exportLoop_shift (o : InOpts) (k : Nat) : ∀ (a : List Str) (cur : Option (Nat × List Str))
     (tc : Nat) (acc : List (Nat × Tree)),
     exportLoop o a cur (tc + k) (acc.map (renum o k)) = (exportLoop o a cur tc acc).map (List.map (renum o k))
   | [], cur, tc, acc => by simp [exportLoop, Except.map]
-  | line :: rest, none, tc, acc => by
-    simp only [exportLoop]
-    split
-    · split
-      · exact exportLoop_shift o k rest _ _ _
-      · rfl
-    · exact exportLoop_shift o k rest _ _ _
-  | line :: rest, some (id, body), tc, acc => by
-    simp only [exportLoop]
-    split
-    · split
-      · rfl
-      · rename_i t ht
-        have ih := exportLoop_shift o k rest none (tc + 1)
-          ((if o.continuous then tc else id, if o.replaceParens then replaceParensTree t else t) :: acc)
-        rw [← ih]
-        have e1 : tc + 1 + k = tc + k + 1 := by omega
-        rw [e1]
-        congr 1
-        simp only [List.map_cons, renum]
-        cases o.continuous <;> simp
-    · exact exportLoop_shift o k rest _ _ _
+  | line :: rest, cur, tc, acc => by
+    rw [exportLoop_cons, exportLoop_cons, expStep_shift]
+    cases expStep o line cur tc acc with
+    | error e => rfl
+    | ok s => exact exportLoop_shift o k rest _ _ _
 
 /-! ### lines of a text -/
 
@@ -347,17 +403,12 @@ theorem splitOnChar_snoc_sep (c : Char) (a : Str) : splitOnChar c (a ++ [c]) = s
 theorem openAfter_append (a b : List Str) : ∀ s : Bool, openAfter s (a ++ b) = openAfter (openAfter s a) b := by
   induction a with
   | nil => intro s; simp [openAfter]
-  | cons l a ih => intro s; cases s <;> simp [openAfter, ih]
+  | cons l a ih => intro s; simp [openAfter, ih]
 
 theorem closedCount_append (a b : List Str) : ∀ s : Bool,
     closedCount s (a ++ b) = closedCount s a + closedCount (openAfter s a) b := by
   induction a with
   | nil => intro s; simp [openAfter, closedCount]
-  | cons l a ih =>
-    intro s
-    cases s
-    · simp [openAfter, closedCount, ih]
-    · simp only [List.cons_append, closedCount, openAfter]
-      split <;> simp_all <;> omega
+  | cons l a ih => intro s; simp only [List.cons_append, closedCount, openAfter, ih]; omega
 
 end TT.Lemmas.Proc
